@@ -11,6 +11,7 @@ import OpcuaModel.Gen.Types
     norm <fuel> <type> <value>           → <value>           (normal form of the round-trip theorem)
     allocsite <fuel> <limit> <type> <hex> → slice | vararray | dims | split | mixed | none
                                            (the allocation site whose requests alone exceed the budget)
+    decsvc <fuel> <limit|-> <hex>        → ok <type id> <name> <value> | fail <kind>   (ua.DecodeService)
     newvar <base> <depth> <value>        → ok <variant> | fail <kind>   (ua.NewVariant on a value of Go type slice^depth(T_base))
 -/
 namespace Opcua.CodecDrv
@@ -58,6 +59,13 @@ def handle : List String → String
         else "mixed"
       | none => "bad-hex"
     | _, _, _ => "bad-op"
+  | ["decsvc", fuel, limit, hex] =>
+    match fuel.toNat?, fromHex hex with
+    | some f, some b =>
+      match decService Gen.serviceTypes (decode (envOf limit.toNat?) f) ⟨b, 0⟩ with
+      | .ok (tid, name, v) _ => s!"ok {printVal (.expNodeId tid)} {name} {printVal v}"
+      | .fail e => "fail " ++ failName e
+    | _, _ => "bad-op"
   | "wt" :: fuel :: rest =>
     match fuel.toNat?, pTy named rest with
     | some f, some (ty, rest) =>
